@@ -75,6 +75,10 @@ def probe_module(i, d, table, want):
     exp = {}
 
     def emit(line, neg=None):
+        # names of probe functions are built from state and event names: `r#loop` cannot be part of one
+        line = re.sub(r'^((?:async )?fn \w*)((?:_?r#\w+)+)', lambda m: m.group(1) + m.group(2).replace('r#', 'raw_'), line)
+        while re.match(r'^(?:async )?fn [\w]*r#', line):
+            line = re.sub(r'^((?:async )?fn [\w]*)r#', r'\1raw_', line)
         L.append(line)
         if neg:
             exp[len(L)] = neg
@@ -205,12 +209,31 @@ def model_tables(ctx, defs, idxs, feat, tag):
 
 # ---------------------------------------------------------------- batch A: method / accessor / SubstateOf / Send matrix
 
+# states and superstates spelled as raw identifiers (keywords): sources, targets, superstate sources and targets, nested
+RAW_DEFS = [
+    [('name', 'M'), ('initial', 'idle'),
+     ('states', [('leaf', 'idle', None),
+                 ('super', 'r#mod', None, [('leaf', 'r#loop', 'D1'), ('leaf', 'review', None),
+                                           ('super', 'r#static', None, [('initial', 'r#final'), ('leaf', 'cold', None), ('leaf', 'r#final', None)])]),
+                 ('leaf', 'r#match', 'D0')]),
+     ('events', [('go', [('transition', [('from', ['idle']), ('to', 'r#mod')])]),
+                 ('hit', [('transition', [('from', ['r#loop']), ('to', 'r#match')])]),
+                 ('retract', [('transition', [('from', ['r#mod']), ('to', 'idle')])]),
+                 ('freeze', [('transition', [('from', ['review', 'r#match']), ('to', 'r#static')])]),
+                 ('trash', [('transition', [('from', ['idle', 'r#static']), ('to', 'r#loop')])])])],
+    [('name', 'M'), ('initial', 'r#loop'), ('context', 'Ctx'), ('async', True),
+     ('states', [('leaf', 'r#loop', None), ('leaf', 'r#match', None), ('leaf', 'Done', None)]),
+     ('events', [('hit', [('transition', [('from', ['r#loop']), ('to', 'r#match')])]),
+                 ('resume', [('transition', [('from', ['r#match']), ('to', 'r#loop')])]),
+                 ('finish', [('transition', [('from', ['r#loop', 'r#match']), ('to', 'Done')])])])],
+]
+
 def k3_matrix(ctx):
     b = ctx.stage('k2build', lambda: k2run.k2_build(ctx))
     if not b['ok']:
         return {'ok': False, 'why': b['why']}
-    defs = b['defs']
-    idxs = list(b['live'])
+    defs = list(b['defs']) + RAW_DEFS        # raw-identifier names are probed here only (the K2 driver and the K1 templates
+    idxs = list(b['live']) + list(range(len(b['defs']), len(b['defs']) + len(RAW_DEFS)))    # are written for plain identifiers)
     tables = model_tables(ctx, defs, idxs, False, 'matrix')
     mods = []
     exps = {}
